@@ -49,6 +49,9 @@ def gen_cases(tier, seed):
     for cls in MIN_CLASSES + K_CLASSES:
         for i in range(n):
             cases.append({"kind": "model", "cls": cls, "rs": f"C13:{seed}:{cls}:{i}", "variant": i % 3})
+    for cls in K_CLASSES:
+        for i in range(max(3, n // 3)):
+            cases.append({"kind": "edited", "cls": cls, "rs": f"C13ed:{seed}:{cls}:{i}"})
     for i in range(n * 2):
         cases.append({"kind": "mingenset", "rs": f"C13g:{seed}:{i}"})
     for i in range(n):
@@ -316,7 +319,48 @@ def run_lastrun(case):
     return {"viol": viol[:2], "obs": dict(obs), "nontrivial": True, "keys": ["lastrun"], "sample": {"lastrun": True}}
 
 
+def run_edited(case):
+    """A solved k-model whose MILP is then changed through its own solver object (model.solver.add_constraint on model.edge_vars: an edge that
+    the solution uses is forbidden in every slot) and solved again: whatever it reports afterwards has to be about the CURRENT model - solved
+    only with routes that respect the new constraint, never the cached answer of the model that was proven optimal before the change."""
+    viol = []; obs = collections.Counter()
+    rng = gen.rng_for(case["rs"]); cls = case["cls"]
+    inst, meta = W.random_instance(rng, cls, small=True)
+    if meta["mode"] != "edge":
+        return {"viol": [], "obs": {"c13.edited_skipped_node_mode": 1}, "nontrivial": False}
+    res = models.run(inst, solver_options=dict(SO))
+    m = res.get("model")
+    if not res.get("solved") or m is None or getattr(m, "solver", None) is None or not getattr(m, "edge_vars", None):
+        return {"viol": [], "obs": {"c13.edited_not_applicable": 1}, "nontrivial": False}
+    routes = [r for r in (models.routes_of(res["sol"]) or []) if len(r) >= 2]
+    used = sorted({e for r in routes for e in zip(r, r[1:])})
+    used = [e for e in used if all((e[0], e[1], i) in m.edge_vars for i in range(m.k))]
+    if not used:
+        return {"viol": [], "obs": {"c13.edited_not_applicable": 1}, "nontrivial": False}
+    e = rng.choice(used)
+    for i in range(m.k):
+        M.safe_call(m.solver.add_constraint, m.edge_vars[(e[0], e[1], i)] <= 0, name=f"harness_forbid_{i}")
+    s2 = M.safe_call(m.solve)
+    obs["c13.edited_models_resolved"] += 1
+    so = M.safe_call(m.is_solved)
+    desc = f"{cls} {models.brief(inst)}; forbidden after the first solve: {e}"
+    if s2[0] == "ok" and so == ("ok", True):
+        g = M.safe_call(m.get_solution)
+        r2 = [r for r in (models.routes_of(g[1]) or []) if len(r) >= 2] if g[0] == "ok" and isinstance(g[1], dict) else []
+        if any(e in set(zip(r, r[1:])) for r in r2):
+            viol.append({"sig": f"C13/solved-describes-an-earlier-model/{cls}", "msg": f"after the change is_solved() is True and get_solution() still routes through {e}: {r2}; {desc}"})
+        obs["c13.edited_models_solved_again"] += 1
+    elif s2[0] == "ok":
+        pre = getters_raise(m)
+        if pre:
+            viol.append({"sig": f"C13/getters-hand-out-data-of-an-unsolved-model/{cls}/after-edit", "msg": f"{pre}; {desc}"})
+        obs["c13.edited_models_unsolved_after"] += 1
+    return {"viol": viol, "obs": dict(obs), "nontrivial": True, "keys": [hashlib.sha1(desc.encode()).hexdigest()[:14]], "sample": {"desc": desc[:400]}}
+
+
 def run_case(case):
+    if case["kind"] == "edited":
+        return run_edited(case)
     if case["kind"] == "restricted":
         return run_restricted(case)
     if case["kind"] == "lastrun":
